@@ -449,6 +449,12 @@ func TestC20(t *testing.T) {
 								i++
 								sub := scheme + "://" + host + port + path + query + frag
 								yield(c20Case{Kind: model.KString, Test: model.TestSpec{Name: "url", Not: i%5 == 0}, Subject: model.Str(sub), Mode: modes[i%len(modes)]})
+								// the same URL as a pasted or line-read value carries it: with a line break, a tab or a leading blank
+								pad := []string{"\n", "\r\n", "\t", " ", "\x7f"}[i%5]
+								if pad != " " {
+									yield(c20Case{Kind: model.KString, Test: model.TestSpec{Name: "url", Not: i%3 == 0}, Subject: model.Str(sub + pad), Mode: modes[(i/2)%len(modes)]})
+								}
+								yield(c20Case{Kind: model.KString, Test: model.TestSpec{Name: "url", Not: i%7 == 0}, Subject: model.Str(pad + sub), Mode: modes[(i/3)%len(modes)]})
 							}
 						}
 					}
